@@ -249,7 +249,16 @@ def run_sampler(case, counters, viol, nontrivial):
 
     xpn, dt, smp = case["xp"], case["dtype"], case["sampler"]
     t = small_target()
-    a, probe = make_aspire(t, xpn, dtype=dt, seed=int(case["seed"][-1]))
+    fk = {}
+    if case.get("precond"):
+        # a proposal with about half of its mass outside the prior support: the initial population then needs several
+        # proposal rounds (and their concatenation), which must keep the width as well
+        from ..harness import proposal_for
+
+        t = Target([Coord("box", -1.0, 6.0, 1.0, 0.8), Coord("box", -5.0, 0.5, -0.5, 1.1)])
+        fk = proposal_for(t, widen=3.0, shift=-1.0)
+        counters["runs_with_leaking_proposal"] += 1
+    a, probe = make_aspire(t, xpn, dtype=dt, seed=int(case["seed"][-1]), flow_kwargs=fk)
     want = None if dt is None else int(dt[-2:])
     payloads = []
     kw = {}
@@ -282,7 +291,7 @@ def run_sampler(case, counters, viol, nontrivial):
         kw2.pop("checkpoint_every")
         if smp == "smc":
             kw2["rng"] = np.random.default_rng(4)
-        a2, _ = make_aspire(t, xpn, dtype=dt, seed=int(case["seed"][-1]))
+        a2, _ = make_aspire(t, xpn, dtype=dt, seed=int(case["seed"][-1]), flow_kwargs=fk)
         s2, h2 = a2.sample_posterior(32, sampler=smp, return_history=True, resume_from=payloads[0], **kw2)
         pops.append(("resumed-returned", s2))
         pops += [(f"resumed-history[{i}]", p) for i, p in enumerate(h2.sample_history)]
